@@ -34,11 +34,14 @@ structure CmdCfg where
   epochBothFields : Bool
   /-- scan results leaving through `ProposeCommand` are trimmed (or scans are refused there) -/
   proposeScanTrimmed : Bool
+  /-- `trimScanResponse` visits every scan response of a batched command: the guards that skip a
+  sub-response (`continue`) do not end the loop -/
+  trimEach : Bool := true
   deriving DecidableEq, Repr
 
 def CmdCfg.good : CmdCfg :=
   { keyStartOp := .lt, keyEndOp := .ge, uncheckedKinds := [], unknownRejected := true,
-    epochBothFields := true, proposeScanTrimmed := true }
+    epochBothFields := true, proposeScanTrimmed := true, trimEach := true }
 
 def CmdCfg.ValidateGood (c : CmdCfg) : Prop :=
   c.keyStartOp = .lt ∧ c.keyEndOp = .ge ∧ c.uncheckedKinds = [] ∧ c.unknownRejected = true ∧
@@ -83,6 +86,27 @@ def scanOut (c : CmdCfg) (p : Path) (m : Meta) (applied : List Bytes) : List Byt
   match p with
   | .read => trim c m applied
   | .propose => if c.proposeScanTrimmed then trim c m applied else applied
+
+/-- `trimScanResponse` over the sub-responses of one batched command, in request order;
+`none` = a sub-response that is not a scan result (other command kind, or missing), left alone.
+With `trimEach = false` (the loop `return`s instead of `continue`s at an empty scan result) the
+remaining sub-responses stay untrimmed. -/
+def trimBatch (c : CmdCfg) (m : Meta) : List (Option (List Bytes)) → List (Option (List Bytes))
+  | [] => []
+  | none :: rest => none :: trimBatch c m rest
+  | some ks :: rest =>
+    if ks = [] ∧ c.trimEach = false then some ks :: rest
+    else some (trim c m ks) :: trimBatch c m rest
+
+def scanOutBatch (c : CmdCfg) (p : Path) (m : Meta) (resps : List (Option (List Bytes))) :
+    List (Option (List Bytes)) :=
+  match p with
+  | .read => trimBatch c m resps
+  | .propose => if c.proposeScanTrimmed then trimBatch c m resps else resps
+
+def CmdCfg.BatchGood (c : CmdCfg) : Prop := c.Good ∧ c.trimEach = true
+
+instance CmdCfg.decBatchGood (c : CmdCfg) : Decidable c.BatchGood := by unfold CmdCfg.BatchGood; exact inferInstance
 
 /-! spec -/
 
